@@ -251,6 +251,14 @@ def check_c01(out, tier):
     k = SIZES[tier]
     run_and_judge(out, general_cases(rnd, 260 * k, "c01g"), ["C01"], mine)
     run_and_judge(out, general_cases(rnd, 60 * k, "c01or", ors=True, targets=False), ["C01"], mine)
+    inc = []
+    for i in range(40 * k):
+        cfg = gen.switches(rnd, inverse=True)
+        cfg["report"] = "mixed"
+        if rnd.random() < .4:
+            cfg.update(mode="classes", targets=[M.EX + "A"])
+        inc.append(gen.case("c01i%d" % i, gen.incoming_graph(rnd), **cfg))
+    run_and_judge(out, inc, ["C01"], mine, label="incoming links from typed / untyped, IRI / blank-node subjects")
     pinned_cases(out, "C01", ["C01"], mine)
     from harness import suite_traces, simulate
     simulate.replay(out, L2_BEHAVIOURS[tier], ["C01"], mine)
